@@ -2997,6 +2997,8 @@ impl Context {
                 // };
                 let (bodyv, t, states) = self.eval_expr(*body);
                 self.fn_label = None;
+                // `let r: {a: float} = {a = .., b = ..}`: the variable has the annotated type
+                let (bodyv, t) = self.narrow_record_value(bodyv, t, pat.ty);
 
                 let is_global = self.get_ctxdata().func_i.0 == 0;
                 let is_function = matches!(bodyv.as_ref(), Value::Function(_));
@@ -3073,6 +3075,12 @@ impl Context {
             }
             Expr::Assign(assignee, body) => {
                 let (src, ty, states) = self.eval_expr(*body);
+                // A record with more fields than the record type of the target is accepted
+                // (width subtyping): only the fields of the target are stored.
+                let (src, ty) = match self.typeenv.infer_type(*assignee) {
+                    Ok(dst_ty) => self.narrow_record_value(src, ty, dst_ty),
+                    Err(_) => (src, ty),
+                };
                 self.eval_assign(*assignee, src, ty);
                 (Arc::new(Value::None), unit!(), states)
             }
@@ -3298,6 +3306,73 @@ impl Context {
             // For all other types, type inference guarantees compatibility
             _ => value,
         }
+    }
+
+    /// True when `src_ty` is a record type with all the fields of the record type `dst_ty` and
+    /// further ones, at the top or inside a field they have in common (width subtyping).
+    fn is_wider_record(&self, src_ty: TypeNodeId, dst_ty: TypeNodeId) -> bool {
+        let src_rec = self.canonical_record_type_id(src_ty);
+        let dst_rec = self.canonical_record_type_id(dst_ty);
+        let (Type::Record(src_fields), Type::Record(dst_fields)) =
+            (src_rec.to_type(), dst_rec.to_type())
+        else {
+            return false;
+        };
+        let common = dst_fields
+            .iter()
+            .map(|dst| {
+                src_fields
+                    .iter()
+                    .find(|src| src.key == dst.key)
+                    .map(|src| (src.ty, dst.ty))
+            })
+            .collect::<Option<Vec<_>>>();
+        common.is_some_and(|common| {
+            src_fields.len() > dst_fields.len()
+                || common.iter().any(|(src, dst)| self.is_wider_record(*src, *dst))
+        })
+    }
+
+    /// Convert a record value of type `src_ty` to the record type `dst_ty` when `src_ty` is wider
+    /// (see `is_wider_record`): a record is laid out in the order of the fields of its own type,
+    /// so the fields of `dst_ty` are picked by name and copied into a new record of that type.
+    /// Any other pair of types is left as it is.
+    fn narrow_record_value(
+        &mut self,
+        value: VPtr,
+        src_ty: TypeNodeId,
+        dst_ty: TypeNodeId,
+    ) -> (VPtr, TypeNodeId) {
+        if !self.is_wider_record(src_ty, dst_ty) {
+            return (value, src_ty);
+        }
+        let src_rec = self.canonical_record_type_id(src_ty);
+        let dst_rec = self.canonical_record_type_id(dst_ty);
+        let (Type::Record(src_fields), Type::Record(dst_fields)) =
+            (src_rec.to_type(), dst_rec.to_type())
+        else {
+            return (value, src_ty);
+        };
+        let record_ptr = self.push_inst(Instruction::Alloc(dst_rec));
+        for (i, dst) in dst_fields.iter().enumerate() {
+            let Some(pos) = src_fields.iter().position(|src| src.key == dst.key) else {
+                continue;
+            };
+            let field_val = self.push_inst(Instruction::GetElement {
+                value: value.clone(),
+                ty: src_rec,
+                tuple_offset: pos as u64,
+            });
+            let (field_val, field_ty) =
+                self.narrow_record_value(field_val, src_fields[pos].ty, dst.ty);
+            let dest = self.push_inst(Instruction::GetElement {
+                value: record_ptr.clone(),
+                ty: dst_rec,
+                tuple_offset: i as u64,
+            });
+            self.push_inst(Instruction::Store(dest, field_val, field_ty));
+        }
+        (self.push_inst(Instruction::Load(record_ptr, dst_rec)), dst_rec)
     }
 
     /// Coerce function arguments to match expected parameter types.
